@@ -643,7 +643,14 @@ def apply_rewrite(pieces, rule, pat_s, rep_s, count, file, applied):
         def cap_text(name):
             a, b = caps[name]
             return "".join(pieces[x].text for x in range(si[a], si[b - 1] + 1) if not pieces[x].dead)
-        rep = re.sub(r"\$([A-Za-z_][A-Za-z0-9_]*)", lambda m: cap_text(m.group(1)), rep_s)
+        def str_bytes(name):
+            # `$bytes(NAME)`: NAME captured a plain string literal; its UTF-8 bytes as an array literal (N24)
+            lit = cap_text(name).strip()
+            if not (lit.startswith('"') and lit.endswith('"')) or "\\" in lit:
+                raise ExtractError(f"rewrite {rule}: $bytes({name}) needs a plain string literal, got {lit}")
+            return "&[" + ", ".join(f"0x{b:02x}u8" for b in lit[1:-1].encode("utf-8")) + "]"
+        rep = re.sub(r"\$bytes\(([A-Za-z_][A-Za-z0-9_]*)\)", lambda m: str_bytes(m.group(1)), rep_s)
+        rep = re.sub(r"\$([A-Za-z_][A-Za-z0-9_]*)", lambda m: cap_text(m.group(1)), rep)
         line = pieces[si[k]].line
         kill(pieces, range(si[k], si[e - 1] + 1))
         newp = [Piece(t.text, "rw", line, rule=rule, tkind=t.kind) for t in lex(rep)]
